@@ -430,10 +430,26 @@ def run(chk):
         chk.require(stt == "proved", "R3", "torusPolynomialUniform draws all N coefficients from uniformTorus32", where=tu.where,
                     ok="coefsT[i] = uniformTorus32_distrib(generator), i < N (%d statement(s); %s)" % (nt_, dett), bad=dett, variant=vn)
         us = [p for p in zps if p["kind"] == "call" and p["name"] == "torusPolynomialUniform"]
-        ok = len(us) == 1 and len(us[0]["loops"]) == 1 and (us[0]["loops"][0]["lo"], us[0]["loops"][0]["cmp"], us[0]["loops"][0]["hi"]) == (
-            ZERO, "<", sym.arrow(P(zk, "params"), "k")) and us[0]["args"][0] == sym.addr(sym.idx(P(zr, "a"), us[0]["loops"][0]["var"]))
+        # every mask component exactly once, whatever the loop structure: the component offsets of all calls are enumerated for k in 1..4
+        from sa import concrete as _conc
+        ok, whyu = bool(us), "no call of torusPolynomialUniform"
+        for c_ in us:
+            b0, _o = sym.ptr_split(c_["args"][0])
+            if b0 != P(zr, "a") and sym.root_of(b0) not in (sym.sym(zr), sym.sym(zk)):
+                chk.broken("tLweSymEncryptZero: the polynomial drawn at line %s is not resolved to the parameters: %s" % (c_["line"], sym.show(b0)[:80]))
+            if b0 != P(zr, "a"):
+                ok, whyu = False, "draws into %s" % sym.show(c_["args"][0])[:80]
+        if ok:
+            for kv in (1, 2, 3, 4):
+                try:
+                    seen = sorted(x_[0] for x_ in _conc.visited_tuples(us, lambda c_: (sym.ptr_split(c_["args"][0])[1],), {sym.arrow(P(zk, "params"), "k"): kv}))
+                except _conc.NotEvaluable as e:
+                    chk.broken("tLweSymEncryptZero: %s" % e)
+                if seen != list(range(kv)):
+                    ok, whyu = False, "with k = %d the components drawn are %s, the mask has components 0..%d" % (kv, seen, kv - 1)
+                    break
         chk.require(ok, "R3", "tLweSymEncryptZero draws a fresh uniform polynomial for each of the k mask components", where=ez.where,
-                    ok="torusPolynomialUniform(&result->a[i]), i < k", bad=[summ.show_piece(p)[:100] for p in us], variant=vn)
+                    ok="torusPolynomialUniform(&result->a[i]), i < k (enumerated for k = 1..4)", bad=[whyu] + [summ.show_piece(p)[:100] for p in us], variant=vn)
         # ---------------- R4 binary keys
         for name, depth in (("lweKeyGen", 1), ("tLweKeyGen", 2)):
             f = v.fn(name)
